@@ -31,12 +31,11 @@ int main()
         auto f = vh::fields(line);
         const std::string op = f["op"];
         const IndexType N = std::stoi(f["N"]);
-        DenseMatrix Dm = v8::parse_matrix(f["dist"]);
-        v8::matrix_distance_callback dcb{&Dm};
+        DenseMatrix Dbig = v8::parse_matrix(f["dist"]);
+        v8::matrix_distance_callback dcb{&Dbig};
         ScalarType width = vh::parse_num(f["width"]);
-        Idx idx(N);
-        for (IndexType i = 0; i < N; ++i)
-            idx[i] = i;
+        Idx idx = v8::parse_range(f, N);
+        DenseMatrix Dm = v8::restrict_square(Dbig, idx); // mirrored exp values work by position in the range
         std::ostringstream out;
         std::cerr << "case " << op << " N=" << N << " k=" << f["k"] << " d=" << f["d"] << " " << f["method"] << "\n";
         if (op == "lap")
